@@ -874,6 +874,27 @@ class Impl:
             os.rmdir(d)
         return parse_dot(text)
 
+    def op_copy_manager(self, m, src, *oracle):
+        import copy
+        srcb = self.mgr[src]
+        old = self.mgr.get(m)
+        new = copy.copy(srcb)
+        if old is not None and old is not srcb:
+            old._ref = {1: 0}
+        self.mgr[m] = new
+        return Extra(None, [[vid(v) for v in srcb.vars]])
+
+    def op_reduction(self, m, src, *oracle):
+        srcb = self.mgr[src]
+        vo = [vid(v) for v in srcb.vars]
+        order = list(srcb._succ)
+        old = self.mgr.get(m)
+        new = srcb.reduction()
+        if old is not None and old is not srcb:
+            old._ref = {1: 0}
+        self.mgr[m] = new
+        return Extra(None, [vo, order])
+
     def op_assert_consistent(self, b):
         return b.assert_consistent()
 
@@ -979,7 +1000,7 @@ class Impl:
                     r = self.mrun(m, name, *args)
                 elif isinstance(m, str):
                     r = self.arun(m, name, *args)
-                elif name in ('new', 'load_manager', 'dddmp_load'):
+                elif name in ('new', 'load_manager', 'dddmp_load', 'copy_manager', 'reduction'):
                     f = getattr(self, 'op_' + name)
                     r = f(m, *args)
                 else:
